@@ -20,7 +20,7 @@ RULE = (
     "remaining params by name; syntax simple|classic; form assign-await|await|start-ref; values drawn from None/bool/int/float/"
     "str (quotes, newlines, $, braces)/list/dict (depth<=2), as literals or via the payload of a received event; callee: send "
     "Echo(all params), (when the flow is called twice) append in place to list parameters that received their default, reassign some params and the local $loc (also set in the caller), return literal | param | list of params "
-    "| dict of params; sibling leg: two instances of one flow interleaved by events, each changing its own variables. "
+    "| dict of params; in half of the cases the callee is an @override of a base flow declaring another signature (names from p0..p3,q0,q1, other order/count/defaults, before or after the override); sibling leg: two instances of one flow interleaved by events, each changing its own variables. "
     "Non-trivial = the call mixes >=2 of {positional, named, defaulted} or passes a container/None/bool; distinct by case."
 )
 ASSUMPTIONS = [
@@ -104,6 +104,19 @@ def _case(draw):
         # their declared default, so the second instance must still see the pristine declared default
         "repeat": draw(st.booleans()),
         "flow_name": draw(st.sampled_from(["f", "do thing", "handle user request"])),
+        # the callee is an `@override` of a base flow that declares another signature (other names, order, count, defaults):
+        # the override's own declaration is the one that binds
+        "override": draw(st.none() | _base_sig()),
+    }
+
+
+@st.composite
+def _base_sig(draw):
+    names = draw(st.lists(st.sampled_from(["p0", "p1", "p2", "p3", "q0", "q1"]), unique=True, max_size=4))
+    ndef = draw(st.integers(0, len(names)))
+    return {
+        "sig": [{"name": nm, **({"default": "base-default-" + nm} if i >= len(names) - ndef else {})} for i, nm in enumerate(names)],
+        "first": draw(st.booleans()),
     }
 
 
@@ -150,6 +163,11 @@ def _program(case):
     name = case["flow_name"]
     sig = " ".join(f"${p['name']}" + (f"={lit(p['default'])}" if "default" in p else "") for p in case["sig"])
     lines = [f"flow {name} {sig}".rstrip()]
+    base = []
+    if case.get("override"):
+        bsig = " ".join(f"${p['name']}" + (f"={lit(p['default'])}" if "default" in p else "") for p in case["override"]["sig"])
+        base = [f"flow {name} {bsig}".rstrip(), "  send BaseRan()", ""]
+        lines = (base if case["override"]["first"] else []) + ["@override"] + lines
     def _mutated(i, p):
         return bool(case.get("repeat")) and i >= len(case["pos"]) and p["name"] not in case["named"] and isinstance(p.get("default"), list)
 
@@ -173,7 +191,8 @@ def _program(case):
         lines.append("  return [" + ", ".join(f"${nm}" for nm in r["names"]) + "]")
     elif r["kind"] == "dict":
         lines.append("  return {" + ", ".join(f'"{nm}": ${nm}' for nm in dict.fromkeys(r["names"])) + "}")
-    lines += ["", "flow main", f"  $loc = {lit(case['caller_loc'])}"]
+    lines += [""] + (base if case.get("override") and not case["override"]["first"] else [])
+    lines += ["flow main", f"  $loc = {lit(case['caller_loc'])}"]
     for p in case["sig"]:
         lines.append(f'  ${p["name"]} = "caller-{p["name"]}"')
     payload = {}
@@ -273,6 +292,10 @@ def prop(case):
     if case["via_event"]:
         call_desc += f" with $e={payload!r}"
     echos = [_strip(e) for e in events if e["type"] == "Echo"]
+    if case.get("override"):
+        call_desc = "@override of `" + [l for l in text.split("\n") if l.startswith("flow ")][0 if case["override"]["first"] else 1] + "`: " + call_desc.replace("@override | ", [l for l in text.split("\n") if l.startswith("flow ")][1 if case["override"]["first"] else 0] + " | ")
+        if any(e["type"] == "BaseRan" for e in events):
+            raise Violation("base-flow-ran", f"{call_desc}: the overridden base flow ran")
     if case.get("repeat"):
         if echos != [echo_exp, echo_exp]:
             kind = "default-not-fresh" if echos[:1] == [echo_exp] else "binding"
@@ -299,6 +322,8 @@ def prop(case):
         labels.append("omitted-no-default")
     if case["assigns"]:
         labels.append("callee-assigns")
+    if case.get("override"):
+        labels.append("override-with-other-signature")
     if case.get("repeat"):
         labels.append("called-twice")
         if any(isinstance(p.get("default"), list) and i >= k and p["name"] not in case["named"] for i, p in enumerate(case["sig"])):
